@@ -1467,6 +1467,12 @@ class Interp:
             return d
         if t in (ast.ListComp, ast.GeneratorExp):
             return self.eval_listcomp(e, env, mod)
+        if t is ast.SetComp:
+            # {f(x) for x in xs}: the set of the listed values
+            lst = self.eval_listcomp(e, env, mod)
+            if not isinstance(lst, PList):
+                raise Unsupported("set comprehension over an abstract iterable")
+            return self.call(self.builtins["set"], [lst], {})
         if t is ast.DictComp:
             return self.eval_dictcomp(e, env, mod)
         if t is ast.Lambda:
